@@ -3,6 +3,7 @@
   UnytProofs/Lemmas/C14Rows.lean, stated in UnytProofs/C14.lean).
 -/
 import UnytModel.C14Check
+import UnytProofs.Lemmas.C14Chunk08  -- build order only: at most four chunks are decided concurrently
 
 namespace Unyt.C14
 
@@ -21,5 +22,9 @@ theorem exclusions_chunk_12 : exclusionsChunkOk 12 = true := by decide +kernel
 theorem nonprefixable_slice_12_0 : nonprefixableSliceOk 12 0 = true := by decide +kernel
 theorem nonprefixable_slice_12_1 : nonprefixableSliceOk 12 1 = true := by decide +kernel
 theorem nonprefixable_slice_12_2 : nonprefixableSliceOk 12 2 = true := by decide +kernel
+
+/-- the body of `generate_name_alternatives`' outer loop, for the table keys number i ≡ 12 (mod 16),
+    started in the state the real generator had there, appends exactly what the real one appended -/
+theorem gen_chunk_12 : genChunkOk 12 = true := by decide +kernel
 
 end Unyt.C14
